@@ -21,6 +21,18 @@ CHECKS: dict[str, dict[str, str]] = {
         note='faults are raised by the fake session (socket-level timeouts are aiohttp\'s); Retry-After in integer seconds; known defects F14 '
              '(failed re-login kills the authenticator) and F17 (timer/daemon dies on exhausted retries) are documented, not exercised here',
         ref='DESIGN.md 4/C12'),
+    'C19': dict(
+        technique='TLA+ model of the list-then-watch continuity logic (Watching.tla) checked exhaustively with TLC; recorded executions of '
+                  'the real operator against the stateful fake API checked by TLC against a TLA+ property automaton (WatchMonitor.tla)',
+        text='Watching.tla: a server change log, a client that lists, watches from a remembered version and survives EOF, connection errors, '
+             'timeouts, 410 after compaction, bookmarks and an unknown ERROR; NoSkip / SinceNeverAhead / AllReach hold in every reachable '
+             'state for 4 changes x 3 faults (two configurations), and a negative configuration (resume version ahead of the stream) must '
+             'fail. The real operator then runs random object histories with stream faults at random positions, and namespace/CRD churn under '
+             'a namespace pattern; TLC evaluates on each execution: every watch request resumes from exactly the last listed/streamed '
+             'version, never watches without listing, at rest the consumer saw the final state of every object, and exactly one watch per '
+             'served (resource, namespace) pair. The known family F15 (unknown ERROR kills the watcher silently) is a monitor verdict.',
+        note='resource versions are integers of the fake server (histories start just below 10 / 100 / 1000 so that the decimal width of the version grows within a stream); pausing by peering is covered by C13 (not built yet)',
+        ref='DESIGN.md 4/C19'),
     'C17': dict(
         technique='TLA+ reference state machine of indexing (Indexing.tla); the recorded steps of the real operator are replayed by TLC, which '
                   'predicts the handlers that run and the full contents of every index after each step; gate scenarios judged by the same module',
